@@ -32,7 +32,7 @@ CHECKS = {
    "exact Poisson tail sums for counting models as reference; scripted sampler replaces tensorlib.poisson_dist/normal_dist().sample only; per-test false-alarm probability 1e-9",
    "deterministic simulation: owned RNG (scripted sampler stub + logged seeds), recorded call history vs reference, exact-tail oracles"),
  "C17": ("fault_enumeration", "6.4",
-   "Per generated (workspace, patch-set) document pair every leaf of the workspace is corrupted once, plus key additions/removals, benign re-serialisations and one corruption per recorded digest, interleaved with load/lookup/verify/apply judged against a reference lookup table, canonical-text equality and an independent RFC-6902 applier. Exhaustive over single-leaf faults per document; documents are sampled.",
+   "Per generated (workspace, patch-set) document pair every leaf of the workspace is corrupted once, plus key additions/removals, benign re-serialisations and one corruption per recorded digest, interleaved with load/lookup/verify/apply judged against a reference lookup table, canonical-text equality and an independent RFC-6902 applier; half of the segments hand verify/apply one long-lived in-memory object that is corrupted and restored in place. Exhaustive over single-leaf faults per document; documents (incl. look-alike keys, empty patches, cross-section moves, non-ASCII names) are sampled.",
    "own RFC-6902 applier and canonical JSON equality as reference; documents generated schema-valid",
    "fault enumeration on stored documents inside seeded op sequences (flip/add/remove/reserialise/restore), reference-model oracles, ddmin replay"),
  "C18": ("exploration", "6.5",
@@ -44,7 +44,7 @@ CHECKS = {
    "click CliRunner + canonical reset as process model (validated against real subprocesses in the thorough tier); option semantics re-implemented by hand in the reference",
    "deterministic simulation: seeded CLI session histories over a simulated disk with file faults and process restarts, library-call reference, ddmin replay"),
  "C20": ("fault_enumeration", "6.7",
-   "For each generated valid spec (accepted un-faulted) every fault class of the statement is injected at every applicable position, plus sampled pairs and benign controls, through both construction routes; outcome must be one of pyhf's own exceptions. Exhaustive over positions per spec; specs sampled.",
+   "For each generated valid spec (accepted un-faulted) every fault class of the statement is injected at every applicable position, plus sampled pairs (incl. same-class and compensating pairs) and benign controls, through both construction routes; outcome must be one of pyhf's own exceptions. Exhaustive over positions per spec; specs sampled. Two accepted cases are recorded as known findings.",
    "fault injector defines 'structurally inconsistent'; controls keep it honest; exception must be defined in pyhf.exceptions",
    "single-step fault injection enumerated over all positions of seeded specs, control look-alikes, ddmin replay"),
 }
